@@ -466,3 +466,253 @@ Qed.
 Check C02_other_arms_ignore_callback : forall b, src_calls_function b = false ->
   forall cb cb' args st, builtin_full cb b args st = builtin_full cb' b args st.
 Print Assumptions C02_other_arms_ignore_callback.
+
+(* ================================================================================================
+   LET round (proofs/C02Wf.v): WELL-FORMEDNESS IS AN INVARIANT.  [cfg_wf] (the scope chain mentions
+   existing function cells only) was a hypothesis on the starting configuration of the eval-twice /
+   let-abstraction theorems.  It is preserved by every evaluation (all expression forms, FunctionDef::call,
+   every depth), every result mentions existing cells only and the store never shrinks — for every
+   operator / built-in implementation that creates no dangling cell ([ops_wf], discharged for binop_impl,
+   builtin_impl, builtin_full) — hence it holds after ANY statement sequence from the initial
+   configuration, and eval-twice holds there without any hypothesis on the configuration.
+   ================================================================================================ *)
+Require Import Blots.proofs.C02Wf.
+
+Theorem C02_cfg_wf_preserved_generic : forall release bi bu, ops_wf bi bu ->
+  forall d e c, wfc c ->
+    let x := evalD release bi bu d c e in
+    length (fst c) <= length (fst (snd x)) /\ wfc (snd x) /\
+    (forall v, fst x = Ok v -> ids_lt (length (fst (snd x))) v = true).
+Proof. intros release bi bu [H1 H2] d e c Hc. exact (evalD_wf release bi bu H1 H2 d e c Hc). Qed.
+Check C02_cfg_wf_preserved_generic : forall release bi bu, ops_wf bi bu ->
+  forall d e c, wfc c ->
+    let x := evalD release bi bu d c e in
+    length (fst c) <= length (fst (snd x)) /\ wfc (snd x) /\
+    (forall v, fst x = Ok v -> ids_lt (length (fst (snd x))) v = true).
+Print Assumptions C02_cfg_wf_preserved_generic.
+
+Theorem C02_ops_create_no_dangling_cell : ops_wf binop_impl builtin_impl /\ ops_wf binop_impl builtin_full.
+Proof. split; [exact ops_wf_inst|exact ops_wf_full]. Qed.
+Check C02_ops_create_no_dangling_cell : ops_wf binop_impl builtin_impl /\ ops_wf binop_impl builtin_full.
+Print Assumptions C02_ops_create_no_dangling_cell.
+
+Theorem C02_cfg_wf_preserved : forall release d e c r c',
+  cfg_wf c = true -> evalD release binop_impl builtin_impl d c e = (r, c') ->
+  cfg_wf c' = true /\ length (fst c) <= length (fst c') /\ (forall v, r = Ok v -> ids_lt (length (fst c')) v = true).
+Proof. exact evalD_cfg_wf. Qed.
+Check C02_cfg_wf_preserved : forall release d e c r c',
+  cfg_wf c = true -> evalD release binop_impl builtin_impl d c e = (r, c') ->
+  cfg_wf c' = true /\ length (fst c) <= length (fst c') /\ (forall v, r = Ok v -> ids_lt (length (fst c')) v = true).
+Print Assumptions C02_cfg_wf_preserved.
+
+Theorem C02_cfg_wf_preserved_fullbi : forall release d e c r c',
+  cfg_wf c = true -> evalD release binop_impl builtin_full d c e = (r, c') ->
+  cfg_wf c' = true /\ length (fst c) <= length (fst c') /\ (forall v, r = Ok v -> ids_lt (length (fst c')) v = true).
+Proof. exact evalD_cfg_wf_full. Qed.
+Check C02_cfg_wf_preserved_fullbi : forall release d e c r c',
+  cfg_wf c = true -> evalD release binop_impl builtin_full d c e = (r, c') ->
+  cfg_wf c' = true /\ length (fst c) <= length (fst c') /\ (forall v, r = Ok v -> ids_lt (length (fst c')) v = true).
+Print Assumptions C02_cfg_wf_preserved_fullbi.
+
+(* after any program (CLI loop: stops at the first failing statement) and after every statement of a session
+   (failures included), from the initial configuration with function-free inputs *)
+Theorem C02_cfg_wf_after_any_program : forall release d0 inputs prog,
+  frame_lt 0 inputs = true ->
+  cfg_wf (s_cfg (fst (run (evalD release binop_impl builtin_full d0) (init_session inputs) prog))) = true /\
+  forall stop, Forall (fun rc => cfg_wf (snd rc) = true)
+                      (run_trace (evalD release binop_impl builtin_full d0) stop (init_session inputs) prog).
+Proof.
+  intros release d0 inputs prog Hi. split; [exact (program_cfg_wf_full release d0 inputs prog Hi)|].
+  intros stop. exact (session_cfg_wf_full release d0 stop inputs prog Hi).
+Qed.
+Check C02_cfg_wf_after_any_program : forall release d0 inputs prog,
+  frame_lt 0 inputs = true ->
+  cfg_wf (s_cfg (fst (run (evalD release binop_impl builtin_full d0) (init_session inputs) prog))) = true /\
+  forall stop, Forall (fun rc => cfg_wf (snd rc) = true)
+                      (run_trace (evalD release binop_impl builtin_full d0) stop (init_session inputs) prog).
+Print Assumptions C02_cfg_wf_after_any_program.
+
+Theorem C02_eval_twice_after_any_program : forall release d0 d inputs prog e r1 c1 r2 c2,
+  frame_lt 0 inputs = true -> no_assign e = true ->
+  let c := s_cfg (fst (run (evalD release binop_impl builtin_impl d0) (init_session inputs) prog)) in
+  evalD release binop_impl builtin_impl d c e = (r1, c1) ->
+  evalD release binop_impl builtin_impl d c1 e = (r2, c2) ->
+  osame r1 r2 /\ snd c2 = snd c /\ snd c1 = snd c.
+Proof. exact eval_twice_after_any_program. Qed.
+Check C02_eval_twice_after_any_program : forall release d0 d inputs prog e r1 c1 r2 c2,
+  frame_lt 0 inputs = true -> no_assign e = true ->
+  let c := s_cfg (fst (run (evalD release binop_impl builtin_impl d0) (init_session inputs) prog)) in
+  evalD release binop_impl builtin_impl d c e = (r1, c1) ->
+  evalD release binop_impl builtin_impl d c1 e = (r2, c2) ->
+  osame r1 r2 /\ snd c2 = snd c /\ snd c1 = snd c.
+Print Assumptions C02_eval_twice_after_any_program.
+
+Theorem C02_eval_twice_after_any_program_fullbi : forall release d0 d inputs prog e r1 c1 r2 c2,
+  frame_lt 0 inputs = true -> no_assign e = true ->
+  let c := s_cfg (fst (run (evalD release binop_impl builtin_full d0) (init_session inputs) prog)) in
+  evalD release binop_impl builtin_full d c e = (r1, c1) ->
+  evalD release binop_impl builtin_full d c1 e = (r2, c2) ->
+  osame r1 r2 /\ snd c2 = snd c /\ snd c1 = snd c.
+Proof. exact eval_twice_after_any_program_full. Qed.
+Check C02_eval_twice_after_any_program_fullbi : forall release d0 d inputs prog e r1 c1 r2 c2,
+  frame_lt 0 inputs = true -> no_assign e = true ->
+  let c := s_cfg (fst (run (evalD release binop_impl builtin_full d0) (init_session inputs) prog)) in
+  evalD release binop_impl builtin_full d c e = (r1, c1) ->
+  evalD release binop_impl builtin_full d c1 e = (r2, c2) ->
+  osame r1 r2 /\ snd c2 = snd c /\ snd c1 = snd c.
+Print Assumptions C02_eval_twice_after_any_program_fullbi.
+
+(* a program that creates named and anonymous closures (one of them inside a do-block, one through map), then an
+   assignment-free expression evaluated twice after it: 3 cells after the program, 2 more per evaluation *)
+Definition wfx_prog : list stmt :=
+  [SExpr (EAssign "k" (ENum (num_of_Z 2)));
+   SExpr (EAssign "f" (ELam [AReq "a"] (EBin Multiply (EId "a") (EId "k"))));
+   SExpr (EAssign "gs" (EList [Cm [] (ELam [AReq "b"] (ECall (EId "f") [EId "b"])) None;
+                               Cm [] (EDo [Cm [] (EAssign "h" (ELam [AReq "c"] (EId "c"))) None]
+                                          (Cm [] (EId "h") None)) None]))].
+Definition wfx_expr : expr :=
+  EList [Cm [] (ECall (EBuiltin B_map) [EList [Cm [] (ENum (num_of_Z 1)) None]; EAccess (EId "gs") (ENum (num_of_Z 0))]) None;
+         Cm [] (ELam [AReq "z"] (ECall (EId "f") [EId "z"])) None;
+         Cm [] (ECall (EBuiltin B_sort_by) [EList [Cm [] (ENum (num_of_Z 3)) None; Cm [] (ENum (num_of_Z 1)) None];
+                                            ELam [AReq "q"] (EUn Negate (EId "q"))]) None].
+Example C02_eval_twice_after_program_example :
+  let c := s_cfg (fst (run (evalD true binop_impl builtin_full 8) (init_session []) wfx_prog)) in
+  let r1 := evalD true binop_impl builtin_full 8 c wfx_expr in
+  let r2 := evalD true binop_impl builtin_full 8 (snd r1) wfx_expr in
+  no_assign wfx_expr = true /\ length (fst c) = 3 /\ cfg_wf c = true /\
+  is_ok (fst r1) = true /\ length (fst (snd r1)) = 5 /\ length (fst (snd r2)) = 7 /\
+  fst r1 <> fst r2 /\ osame (fst r1) (fst r2).
+Proof. vm_compute. repeat split. intros H; discriminate H. Qed.
+
+(* ================================================================================================
+   LET round, second part (proofs/C02LetGen.v): LET-ABSTRACTION BEYOND HEAD CONTEXTS.
+   Same setting as C02_let_abstraction_head_partial (x holds the cell-free value v that s evaluates to), but
+   the occurrence may come AFTER arbitrary assignment-free siblings (which may allocate cells, call functions,
+   fail), inside any call argument / list item / right operand / index, in the callee, and inside a
+   conditional branch that is taken or not taken ([sctx]; every head context is one: C02_hctx_is_sctx).
+   Uses the invariant of the first part (intermediate values mention existing cells only) and a renaming chosen
+   at the occurrence.  PARTIAL with respect to [C02_let_abstraction_full] (several occurrences; lambdas /
+   do-blocks) and to the two-statement formulation [C02_let_program_full] (needs [C02_weakening_full]).
+   ================================================================================================ *)
+Require Import Blots.proofs.C02LetGen.
+
+Theorem C02_let_abstraction_seq_partial : forall release d x s st st1 fr v eA eB rA cA rB cB,
+  frames_lt (length st) fr = true ->
+  evalD release binop_impl builtin_impl d (st, fr) (EId x) = (Ok v, (st, fr)) ->
+  evalD release binop_impl builtin_impl d (st, fr) s = (Ok v, (st1, fr)) ->
+  cell_free v = true ->
+  sctx x s eA eB ->
+  evalD release binop_impl builtin_impl d (st, fr) eA = (rA, cA) ->
+  evalD release binop_impl builtin_impl d (st, fr) eB = (rB, cB) ->
+  osame rA rB.
+Proof. exact let_abstraction_seq_inst. Qed.
+Check C02_let_abstraction_seq_partial : forall release d x s st st1 fr v eA eB rA cA rB cB,
+  frames_lt (length st) fr = true ->
+  evalD release binop_impl builtin_impl d (st, fr) (EId x) = (Ok v, (st, fr)) ->
+  evalD release binop_impl builtin_impl d (st, fr) s = (Ok v, (st1, fr)) ->
+  cell_free v = true ->
+  sctx x s eA eB ->
+  evalD release binop_impl builtin_impl d (st, fr) eA = (rA, cA) ->
+  evalD release binop_impl builtin_impl d (st, fr) eB = (rB, cB) ->
+  osame rA rB.
+Print Assumptions C02_let_abstraction_seq_partial.
+
+Theorem C02_let_abstraction_seq_partial_fullbi : forall release d x s st st1 fr v eA eB rA cA rB cB,
+  frames_lt (length st) fr = true ->
+  evalD release binop_impl builtin_full d (st, fr) (EId x) = (Ok v, (st, fr)) ->
+  evalD release binop_impl builtin_full d (st, fr) s = (Ok v, (st1, fr)) ->
+  cell_free v = true ->
+  sctx x s eA eB ->
+  evalD release binop_impl builtin_full d (st, fr) eA = (rA, cA) ->
+  evalD release binop_impl builtin_full d (st, fr) eB = (rB, cB) ->
+  osame rA rB.
+Proof. exact let_abstraction_seq_full. Qed.
+Check C02_let_abstraction_seq_partial_fullbi : forall release d x s st st1 fr v eA eB rA cA rB cB,
+  frames_lt (length st) fr = true ->
+  evalD release binop_impl builtin_full d (st, fr) (EId x) = (Ok v, (st, fr)) ->
+  evalD release binop_impl builtin_full d (st, fr) s = (Ok v, (st1, fr)) ->
+  cell_free v = true ->
+  sctx x s eA eB ->
+  evalD release binop_impl builtin_full d (st, fr) eA = (rA, cA) ->
+  evalD release binop_impl builtin_full d (st, fr) eB = (rB, cB) ->
+  osame rA rB.
+Print Assumptions C02_let_abstraction_seq_partial_fullbi.
+
+(* generic form: any operators / built-ins that commute with renamings, create no dangling cell and never
+   write to an existing cell *)
+Theorem C02_let_abstraction_seq_generic : forall release bi bu,
+  ops_commute bi bu -> ops_wf bi bu ->
+  (forall d c e r c', evalD release bi bu d c e = (r, c') -> store_keep (fst c) (fst c')) ->
+  forall d x s fr v, cell_free v = true ->
+  forall st eA eB rA cA rB cB,
+    Inv release bi bu d x s fr v st -> sctx x s eA eB ->
+    evalD release bi bu d (st, fr) eA = (rA, cA) -> evalD release bi bu d (st, fr) eB = (rB, cB) ->
+    osame rA rB.
+Proof. exact let_abstraction_seq. Qed.
+Check C02_let_abstraction_seq_generic : forall release bi bu,
+  ops_commute bi bu -> ops_wf bi bu ->
+  (forall d c e r c', evalD release bi bu d c e = (r, c') -> store_keep (fst c) (fst c')) ->
+  forall d x s fr v, cell_free v = true ->
+  forall st eA eB rA cA rB cB,
+    Inv release bi bu d x s fr v st -> sctx x s eA eB ->
+    evalD release bi bu d (st, fr) eA = (rA, cA) -> evalD release bi bu d (st, fr) eB = (rB, cB) ->
+    osame rA rB.
+Print Assumptions C02_let_abstraction_seq_generic.
+
+(* success is preserved in both directions in this setting (s is known to succeed wherever the context can
+   reach it); pre-emption of an earlier error of C by an error of s belongs to the two-statement formulation *)
+Theorem C02_let_abstraction_seq_success : forall release d x s st st1 fr v eA eB,
+  frames_lt (length st) fr = true ->
+  evalD release binop_impl builtin_full d (st, fr) (EId x) = (Ok v, (st, fr)) ->
+  evalD release binop_impl builtin_full d (st, fr) s = (Ok v, (st1, fr)) ->
+  cell_free v = true ->
+  sctx x s eA eB ->
+  is_ok (fst (evalD release binop_impl builtin_full d (st, fr) eA)) =
+  is_ok (fst (evalD release binop_impl builtin_full d (st, fr) eB)).
+Proof. exact let_abstraction_seq_success. Qed.
+Check C02_let_abstraction_seq_success : forall release d x s st st1 fr v eA eB,
+  frames_lt (length st) fr = true ->
+  evalD release binop_impl builtin_full d (st, fr) (EId x) = (Ok v, (st, fr)) ->
+  evalD release binop_impl builtin_full d (st, fr) s = (Ok v, (st1, fr)) ->
+  cell_free v = true ->
+  sctx x s eA eB ->
+  is_ok (fst (evalD release binop_impl builtin_full d (st, fr) eA)) =
+  is_ok (fst (evalD release binop_impl builtin_full d (st, fr) eB)).
+Print Assumptions C02_let_abstraction_seq_success.
+
+Theorem C02_hctx_is_sctx : forall x s a b, hctx x s a b -> sctx x s a b.
+Proof. exact hctx_sctx. Qed.
+Check C02_hctx_is_sctx : forall x s a b, hctx x s a b -> sctx x s a b.
+Print Assumptions C02_hctx_is_sctx.
+
+(* kept, not proved *)
+Definition C02_weakening_full : Prop := weakening_stmt.
+Definition C02_let_program_full : Prop := let_program_stmt.
+
+(* the hypotheses on a non-head context: scope of C02_let_abstraction_example (t = [3, 4], x = [4, 5], f = (a, b) => a * b);
+   s = t + 1;  C = map([1], z => z)[0] + (if f((q => q)(2), □)[0] > 0 then f((q => q)(2), □)... — here:
+   C = map([1], z => z)[0] + f((q => q)(2), □)[0]: two cells are allocated and two calls made BEFORE the occurrence,
+   which sits in the second argument of a call inside an index inside a right operand *)
+Definition sx_sib : expr :=
+  EAccess (ECall (EBuiltin B_map) [EList [Cm [] (ENum (num_of_Z 1)) None]; ELam [AReq "z"] (EId "z")]) (ENum (num_of_Z 0)).
+Definition sx_arg0 : expr := ECall (ELam [AReq "q"] (EId "q")) [ENum (num_of_Z 2)].
+Definition sx_C (h : expr) : expr :=
+  EBin Add sx_sib (EAccess (ECall (EId "f") ([sx_arg0] ++ h :: [])) (ENum (num_of_Z 0))).
+(* ... and one where the branch holding the occurrence is not taken *)
+Definition sx_C2 (h : expr) : expr := ECond (EBin Less sx_sib (ENum (num_of_Z 0))) h (ENum (num_of_Z 7)).
+Example C02_let_abstraction_seq_example :
+  sctx "x" lx_s (sx_C (EId "x")) (sx_C lx_s) /\ sctx "x" lx_s (sx_C2 (EId "x")) (sx_C2 lx_s) /\
+  frames_lt (length lx_st) lx_fr = true /\
+  evalD true binop_impl builtin_impl 4 (lx_st, lx_fr) (EId "x") =
+    (Ok (VList [VNum (num_of_Z 4); VNum (num_of_Z 5)]), (lx_st, lx_fr)) /\
+  evalD true binop_impl builtin_impl 4 (lx_st, lx_fr) lx_s =
+    (Ok (VList [VNum (num_of_Z 4); VNum (num_of_Z 5)]), (lx_st, lx_fr)) /\
+  fst (evalD true binop_impl builtin_impl 4 (lx_st, lx_fr) (sx_C lx_s)) = Ok (VNum (num_of_Z 9)) /\
+  length (fst (snd (evalD true binop_impl builtin_impl 4 (lx_st, lx_fr) (sx_C lx_s)))) = 3 /\
+  fst (evalD true binop_impl builtin_impl 4 (lx_st, lx_fr) (sx_C2 lx_s)) = Ok (VNum (num_of_Z 7)).
+Proof.
+  split; [unfold sx_C; apply S_binr; [reflexivity|]; apply S_accl;
+          apply (S_calla "x" lx_s (EId "f") [sx_arg0]); [reflexivity|repeat constructor|apply S_hole]|].
+  split; [unfold sx_C2; apply S_then; [reflexivity|apply S_hole]|].
+  vm_compute. repeat split.
+Qed.
